@@ -18,7 +18,7 @@ PLAN={  # seeded change -> checks to try (own property first)
  'r5-C1':['C13'], 'r5-C2':['C10','C06'], 'r5-C3':['C12','C01'], 'r5-C4':['C07'],
  'r6-A1':['C03','C13'], 'r6-A2':['C04','C03','C14'], 'r6-A3':['C13'], 'r6-A4':['C17','C03'],
  'r6-B1':['C09'], 'r6-B2':['C14'], 'r6-B3':['C15','C06'], 'r6-B4':['C06'],
- 'r6-C1':['C01','C10'], 'r6-C2':['C07'], 'r6-C3':['C08','C14'], 'r6-C4':['C16'],
+ 'r6-C1':['C01','C10'], 'r6-C2':['C07'], 'r6-C3':['C06','C08'], 'r6-C4':['C16'],
 }
 R6={'A1':'C03','A2':'C04','A3':'C13','A4':'C17','B1':'C09','B2':'C14','B3':'C15','B4':'C06','C1':'C01','C2':'C07','C3':'C08','C4':'C16'}
 R5={'A1':'C02','A2':'C02','A3':'C05','A4':'C16','B1':'C06','B2':'C14','B3':'C08','B4':'C11','C1':'C13','C2':'C10','C3':'C12','C4':'C07'}
